@@ -495,6 +495,11 @@ func runCase(c Case, o *kit.Obs) *kit.Failure {
 						return kit.Failf("c08/values-differ"+feat, "op %d: page at row %d value %d: want %v got %v (history: %s)", i, cursor, j, want[j], g, hist(c.Ops[:i+1]))
 					}
 				}
+				// what the page says about itself agrees with the values it delivered
+				if fl := pageSelfCheck(p, vals, cols[c.Col], feat, fmt.Sprintf("op %d: page at row %d (history: %s)", i, cursor, hist(c.Ops[:i+1]))); fl != nil {
+					parquet.Release(p)
+					return fl
+				}
 				parquet.Release(p)
 				cursor += nr
 				continue
@@ -576,3 +581,50 @@ var spec = &kit.Spec[Case]{
 }
 
 func TestProp(t *testing.T) { kit.Both(t, spec) }
+
+// pageSelfCheck: the counts and levels a page reports are those of the values
+// it delivered (a page read after a seek is a slice: it must describe itself,
+// not the page it was cut from), and Data() can be taken.
+func pageSelfCheck(p parquet.Page, vals []parquet.Value, col ref.Column, feat, where string) (fl *kit.Failure) {
+	defer func() {
+		if r := recover(); r != nil {
+			fl = kit.Failf("c08/page-panic"+feat, "%s: %v", where, r)
+		}
+	}()
+	nulls := 0
+	for _, v := range vals {
+		if v.IsNull() {
+			nulls++
+		}
+	}
+	if p.NumValues() != int64(len(vals)) {
+		return kit.Failf("c08/page-numvalues"+feat, "%s: NumValues is %d, the page delivered %d values (%d nulls)", where, p.NumValues(), len(vals), nulls)
+	}
+	if p.NumNulls() != int64(nulls) {
+		return kit.Failf("c08/page-numnulls"+feat, "%s: NumNulls is %d, the page delivered %d nulls", where, p.NumNulls(), nulls)
+	}
+	if col.MaxDef > 0 {
+		dl := p.DefinitionLevels()
+		if len(dl) != len(vals) {
+			return kit.Failf("c08/page-levels"+feat, "%s: %d definition levels for %d values of a column with max definition level %d", where, len(dl), len(vals), col.MaxDef)
+		}
+		for i := range dl {
+			if int(dl[i]) != vals[i].DefinitionLevel() {
+				return kit.Failf("c08/page-levels"+feat, "%s: definition level %d is %d, the value delivered has %d", where, i, dl[i], vals[i].DefinitionLevel())
+			}
+		}
+	}
+	if col.MaxRep > 0 {
+		rl := p.RepetitionLevels()
+		if len(rl) != len(vals) {
+			return kit.Failf("c08/page-levels"+feat, "%s: %d repetition levels for %d values of a column with max repetition level %d", where, len(rl), len(vals), col.MaxRep)
+		}
+		for i := range rl {
+			if int(rl[i]) != vals[i].RepetitionLevel() {
+				return kit.Failf("c08/page-levels"+feat, "%s: repetition level %d is %d, the value delivered has %d", where, i, rl[i], vals[i].RepetitionLevel())
+			}
+		}
+	}
+	p.Data()
+	return nil
+}
